@@ -52,3 +52,99 @@ Section C13.
 End C13.
 Print Assumptions C13_operations_are_constructions.
 Print Assumptions C13_type_plus_type.
+
+(* ---- Part 2: set laws, on top of the well-formedness theorem (theory/GraphWF.v, theory/AlgebraTheory.v).
+   For ANY relation table with the table facts ([table_ok]: decidable type equality, one relation per
+   (source, type), one identity parent, a rank increasing along relations, any set-iteration order):
+   whenever the resulting SET of types is closed (contains Generic and every identity parent - the
+   property's "parent-closed results"), the operation does not raise, the result's types are exactly the
+   union / difference / substitution, its root is Generic, and the result is a well-formed typeset
+   ([built] includes C14's [wf_result]) that depends on the SET only - hence commutativity, associativity,
+   idempotence.  [replace] of an absent type raises KeyError (old <> new). *)
+From Coq Require Import Permutation.
+From V Require Import NxFacts Graph_bridge GraphWF AlgebraTheory Shipped_gen ShippedFacts ShippedGraph.
+
+Section C13_laws.
+  Context {T D St L F : Type} (X : ctx T D St L F) (rk : T -> nat) (H : table_ok X rk).
+  Notation VTS := (VisionsTypeset T D St).
+
+  Theorem C13_add_is_union (self : VTS) o w :
+    closed X (types self ++ operand_types o) ->
+    exists ts w', VT_add X self o w = Ok (ts, w') /\
+      (forall t, In t (types ts) <-> In t (types self) \/ In t (operand_types o)) /\
+      _root_node ts = Some (Generic X) /\
+      exists S, (forall t, In t S <-> In t (types self) \/ In t (operand_types o)) /\ built X rk S w ts w'.
+  Proof. exact (alg_add_is_union X rk H self o w). Qed.
+
+  Theorem C13_sub_is_difference (self : VTS) o w :
+    closed X (set_diff X (types self) (operand_types o)) ->
+    exists ts w', VT_sub X self o w = Ok (ts, w') /\
+      (forall t, In t (types ts) <-> In t (types self) /\ ~ In t (operand_types o)) /\
+      _root_node ts = Some (Generic X) /\
+      exists S, (forall t, In t S <-> In t (types self) /\ ~ In t (operand_types o)) /\ built X rk S w ts w'.
+  Proof. exact (alg_sub_is_difference X rk H self o w). Qed.
+
+  Theorem C13_replace_is_substitution (self : VTS) old new w :
+    (In old (types self) \/ old = new) ->
+    closed X (set_diff X (types self ++ [new]) [old]) ->
+    exists ts w', VT_replace X self old new w = Ok (ts, w') /\
+      (forall t, In t (types ts) <-> (In t (types self) \/ t = new) /\ t <> old) /\
+      _root_node ts = Some (Generic X).
+  Proof. exact (alg_replace_is_substitution X rk H self old new w). Qed.
+
+  Theorem C13_replace_of_absent_type_raises (self : VTS) old new w :
+    ~ In old (types self) -> old <> new -> VT_replace X self old new w = Raise KeyError.
+  Proof. exact (alg_replace_absent_raises X rk H self old new w). Qed.
+
+  Theorem C13_type_plus_type_is_the_three_types t u w :
+    closed X [Generic X; t; u] ->
+    exists ts w', Type_add X t u w = Ok (ts, w') /\
+      (forall x, In x (types ts) <-> x = Generic X \/ x = t \/ x = u) /\ _root_node ts = Some (Generic X).
+  Proof. exact (alg_type_plus_type X rk H t u w). Qed.
+
+  Theorem C13_add_commutes (a b : VTS) w ra wa rb wb :
+    closed X (types a ++ types b) ->
+    VT_add X a (inr b) w = Ok (ra, wa) -> VT_add X b (inr a) w = Ok (rb, wb) -> same_typeset X ra rb.
+  Proof. exact (alg_add_commutes X rk H a b w ra wa rb wb). Qed.
+
+  Theorem C13_add_idempotent (a : VTS) w ra wa :
+    closed X (types a) -> VT_add X a (inr a) w = Ok (ra, wa) -> forall t, In t (types ra) <-> In t (types a).
+  Proof. exact (alg_add_idempotent X rk H a w ra wa). Qed.
+
+  Theorem C13_add_associative (a b c : VTS) w ab wab r1 w1 bc wbc r2 w2 :
+    closed X (types a ++ types b) -> closed X (types b ++ types c) -> closed X (types a ++ types b ++ types c) ->
+    VT_add X a (inr b) w = Ok (ab, wab) -> VT_add X ab (inr c) w = Ok (r1, w1) ->
+    VT_add X b (inr c) w = Ok (bc, wbc) -> VT_add X a (inr bc) w = Ok (r2, w2) ->
+    same_typeset X r1 r2.
+  Proof. exact (alg_add_associative X rk H a b c w ab wab r1 w1 bc wbc r2 w2). Qed.
+
+  Theorem C13_sub_then_add_restores (a : VTS) t w r1 w1 r2 w2 :
+    closed X (types a) -> In t (types a) -> closed X (set_diff X (types a) [t]) ->
+    VT_sub X a (inl t) w = Ok (r1, w1) -> VT_add X r1 (inl t) w = Ok (r2, w2) ->
+    forall x, In x (types r2) <-> In x (types a).
+  Proof. exact (alg_sub_then_add_restores X rk H a t w r1 w1 r2 w2). Qed.
+End C13_laws.
+Print Assumptions C13_add_is_union.
+Print Assumptions C13_sub_is_difference.
+Print Assumptions C13_replace_is_substitution.
+Print Assumptions C13_replace_of_absent_type_raises.
+Print Assumptions C13_type_plus_type_is_the_three_types.
+Print Assumptions C13_add_commutes.
+Print Assumptions C13_add_idempotent.
+Print Assumptions C13_add_associative.
+Print Assumptions C13_sub_then_add_restores.
+
+(* the hypotheses hold for the shipped table (regenerated on this run), whatever the set iteration order *)
+Theorem C13_shipped_table_satisfies_the_hypotheses :
+  forall (si : list ty -> list ty) (rnd : list ty -> list (ty * ty * option style) -> Z),
+    (forall l, NoDup l -> Permutation (si l) l) ->
+    table_ok (shipped_ctx_with si rnd) rk /\
+    (forall S, In tGeneric S -> parent_closed S = true -> closed (shipped_ctx_with si rnd) S).
+Proof. intros si rnd Hsi. split; [exact (shipped_table_ok si rnd Hsi) | exact (shipped_closed si rnd)]. Qed.
+Print Assumptions C13_shipped_table_satisfies_the_hypotheses.
+
+(* non-vacuity: CompleteSet - Image + Image, StandardSet + CompleteSet are closed set expressions *)
+Example C13_closed_instances :
+  parent_closed (complete_set ++ [tImage]) = true /\ parent_closed (standard_set ++ complete_set) = true /\
+  parent_closed (filter (fun x => negb (ty_eqb x tImage)) complete_set) = true.
+Proof. vm_compute. repeat split. Qed.
